@@ -17,6 +17,105 @@ PROPS = {
                     "the C19 laws are also evaluated directly on the implementation's outputs.",
         assumptions=["url.QueryEscape, strconv.ParseUint and unicode/utf8 are modelled from their documentation and validated differentially"],
     ),
+    "C20": dict(
+        level="proof",
+        module="GM.Props.C20",
+        claim="Kernel-checked theorems over a Lean model of goldmark's registries (util.PrioritizedSlice, the parser's and renderer's configuration "
+              "slices, the three carriers of goldmark.New, the sync.Once table builds, the consultation loops of openBlocks/parseBlock/transformParagraph, "
+              "the renderer's kind table and ast.Walk), quantified over every registration order, every carrier mix and EVERY sorting function that "
+              "returns a sorted permutation (sort.Slice is unstable). The model is tied to the Go code by exhaustive small-scope and random differential "
+              "runs of logging probe components; the property's clauses are also checked directly on the implementation's invocation logs.",
+        note="Trusted: Lean kernel (+ propext, Classical.choice, Quot.sound), the correspondence harness, that sort.Slice returns a sorted permutation "
+             "(the SortContract hypothesis). The built-in parsers' own accept/decline decisions are environment input (scripted in the model-compared ops, "
+             "real behind logging proxies in the oracle-only ops). Not modelled: RequireParagraph retry, container blocks (HasChildren), close-blockers, "
+             "SetOptioner option propagation, renderer errors.",
+        technique="Lean 4 theorems over a hand-written model; differential correspondence check (invocation logs) against the Go implementation; log oracle",
+        components=["registry"],
+        explanation="Theorems sorted_unique / trigger_table / free_after_triggered / first_accept_wins / transformers_ascending / renderer_min_wins / "
+                    "missing_kind_skipped / ties_harmless over GM.Model.Registry for all registration lists, carriers and admissible sorts. Component "
+                    "registry registers scripted, logging probe block parsers, inline parsers, paragraph/AST transformers and node renderers (custom and "
+                    "built-in kinds) through NewParser/NewRenderer options, WithParserOptions/WithRendererOptions and Extenders, in all orders of <=4 probes "
+                    "with priorities placed between the shipped defaults (read from the real objects at run time), and compares the invocation logs with the "
+                    "model; a Go oracle independent of the model checks ascending consultation, first-accept, transformer order, lowest-value renderer and "
+                    "skipping of function-less kinds (including a kind created after the renderer was first used) on scripted and on real-pipeline runs.",
+        assumptions=["sort.Slice with the priority comparison returns a sorted permutation of its input (any tie order)",
+                     "the decisions of parsers (accept/decline) are inputs of the registry model, not predicted by it"],
+    ),
+    "C06": dict(
+        level="other",
+        module="GM.Props.C06",
+        claim="Partial, by design. Kernel-checked: (i) for the instance state machine (options pending, configuration frozen by a Once at first use, "
+              "per-call document state) a call after ANY history returns what a fresh instance returns, and Convert = Parse;Render; (ii) the obligations "
+              "over the write facts REGENERATED from /repo on every run: every write to long-lived goldmark state is in a Once closure, a configuration "
+              "method or a package initialiser, and no method on the Parse/Render path writes through a long-lived receiver (a parser, transformer or node "
+              "renderer that starts caching anything breaks this obligation). Searched, not proved: histories of Convert/Parse/Render on shared instances "
+              "versus fresh ones, re-rendering of the same tree, tree unchanged by rendering. A theorem alone cannot reach the unmodelled parsers, hence 'other'.",
+        note="Trusted: Lean kernel (+ propext, Classical.choice, Quot.sound); the syntactic fact extractor gmgen (writes through interfaces, reflection or an "
+             "alias of the receiver escape it); the block/inline parsers are not modelled - their statelessness rests on the facts and on the search.",
+        technique="Lean 4 theorems over an instance state machine + kernel-checked obligations over write facts regenerated from the source; history search against fresh instances",
+        components=["history"],
+        explanation="Proved for all histories in the instance model; facts re-extracted from /repo and re-checked by the kernel on every run; "
+                    "searched: adversarially ordered histories on shared Markdown/Parser/Renderer objects compared call by call with fresh instances, "
+                    "k-fold re-rendering, tree dump before/after rendering.",
+        assumptions=["the fact extractor sees every write to long-lived state (syntactic; see DESIGN.md)", "per-call state lives in Context/Reader objects created per call"],
+    ),
+    "C07": dict(
+        level="other",
+        module="GM.Props.C07",
+        claim="Partial, by design. Kernel-checked: in the small-step interleaving model of the lazy-initialisation protocol (N callers racing on once.Do, "
+              "then reading the built table; sync.Once's documented contract as the synchronisation rule) NO reachable state of ANY schedule has two callers "
+              "about to access the shared table with one of them writing, and every returned result equals the sequential one; plus the obligations over "
+              "the REGENERATED write facts (shared state written only under a Once, before first use, or at package initialisation; the three lazily built "
+              "tables really are built under a Once). Searched, not proved: the real code under the Go race detector with contended first use.",
+        note="Trusted: Lean kernel; sync.Once's contract; the syntactic fact extractor; the race detector only sees executed paths. The Go memory model "
+             "itself is outside the model.",
+        technique="Lean 4 invariant proof over all interleavings of the Once protocol + kernel-checked obligations over regenerated write facts; race-detector search with concurrent first use",
+        components=[{"name": "concurrent", "race": True, "nomodel": True}],
+        explanation="Proved for all schedules and any number of callers in the protocol model; facts re-extracted and re-checked on every run; searched: "
+                    "8 goroutines released together on one fresh shared instance per configuration (Convert and Parse+Render), outputs compared with "
+                    "sequential ones, binary built with -race, several GOMAXPROCS values.",
+        assumptions=["sync.Once behaves as documented", "the fact extractor sees every write to long-lived state"],
+    ),
+    "C12": dict(
+        level="other",
+        module="GM.Props.C12",
+        claim="Partial, by design. Kernel-checked, over a heap of Go slices WITH capacity (append stores in place when it fits): no sequence of "
+              "CopyOnWriteBuffer operations and no Segment.Value call stores into any array that existed before (in particular the source), old arrays stay "
+              "bit-identical, and the result aliases the input only while nothing was written; the pre-repair Segment.Value is a refuting witness. "
+              "Searched, not proved: the whole pipeline converting from a PROT_READ mapping whose spare capacity is read-only as well, so a direct store "
+              "and an in-place append onto any sub-slice both fault; util transformers on read-only inputs.",
+        note="Trusted: Lean kernel; the slice/heap model of Go's append; the harness's read-only mapping (self-tested on every run: a store and an append "
+             "must fault). Stores through unmodelled code can only be found by the search.",
+        technique="Lean 4 theorems over a slice-with-capacity heap model of CopyOnWriteBuffer and Segment.Value; read-only-memory search over the whole pipeline",
+        components=["rosource"],
+        explanation="Proved for all operation sequences / all segments in the heap model; searched: every document converted (Convert, Parse+Render, "
+                    "Node.Text) from read-only memory under corner and lattice configurations, util transformers on read-only inputs, bytes compared afterwards.",
+        assumptions=["Go's append writes in place iff len+n <= cap", "a fault on the read-only mapping is reported by the runtime as a recoverable panic (SetPanicOnFault); self-tested each run"],
+    ),
+    "C10": dict(
+        level="proof",
+        module="GM.Props.C10",
+        claim="Kernel-checked theorems, for every AST, every extension set and every option set (table alignment method pinned != Default, "
+              "East-Asian line breaks off), about the Lean model of the HTML renderer that mirrors the scattered option conditionals and the "
+              "per-renderer html.Config copies: the output is flatMap emit of one option-independent piece list (render_factor); XHTML only "
+              "rewrites void-element ends, HardWraps only prefixes soft breaks with a br element, Unsafe only changes raw-HTML pieces and "
+              "dangerous destinations. A proof is the right level because the property quantifies over all inputs and configurations.",
+        note="Trusted: Lean kernel (+ propext, Classical.choice, Quot.sound), the gmgen translator (attribute filters), the correspondence "
+             "harness and the AST dumper, the parser as producer of trees (the theorems hold for every tree, parser-shaped or not).",
+        technique="Lean 4 theorems over a hand-written renderer model; differential correspondence (component render); metamorphic oracle on "
+                  "the real library over the 8 option combinations (component options)",
+        components=["render", "options"],
+        tie=["render"],
+        explanation="Theorems over all trees about GM.Model.Render via the option-independent IR of GM.Model.RenderIR. The model is tied to "
+                    "renderer/html/html.go, renderer/renderer.go and the extension renderers by component render (real parser trees and random "
+                    "API-built trees under many option combinations, bytes compared); component options evaluates the property itself on the "
+                    "real library: each document is converted under the 8 combinations of XHTML/HardWraps/Unsafe and the 12 single-option "
+                    "pairs are compared modulo the licensed differences, with counts taken from the real AST.",
+        assumptions=["table alignment method pinned (Attribute in the oracle, any non-Default method in the theorems) and East-Asian line-break "
+                     "suppression off, as in the property text",
+                     "the theorems speak about trees; that the parser output does not depend on renderer options is checked by the oracle "
+                     "(8 independent Convert calls), not proved"],
+    ),
 }
 
 # Properties not claimed yet, with the reason shown in MANIFEST.not_applicable.
